@@ -3,7 +3,7 @@ EXTENDS Accessory, Json
 VARIABLES hist, bad, pre
 GInit == Init /\ hist = <<>> /\ bad = FALSE /\ pre = <<>>
 StepBad == \/ ((last'[1] = "Verify" /\ last'[4] = "ok") /\ last'[3] \notin paired)
-           \/ ((last'[1] \in {"Read", "Sub", "Unsub", "Write", "Remove"} /\ last'[4] = "ok") /\ ~Verified(last'[2]))
+           \/ ((last'[1] \in {"Read", "Sub", "Unsub", "Write", "Remove", "Add"} /\ last'[4] = "ok") /\ ~Verified(last'[2]))
            \/ ~(got' \subseteq {k \in Conn : Verified(k) /\ k \in subs /\ k # last'[2]})
            \/ ~Discoverable'
            \/ (last'[1] \in {"Stop", "Start"} /\ paired' # paired)
